@@ -174,7 +174,10 @@ def root_contract(ctx, i_star, j_star):
   return contract, RF, EF
 
 
-def mk_p3(N, D):
+def mk_p3(N, D, grouping=None):
+  """grouping: number of statistics per parameter state (default: one each); sum(grouping) = N."""
+  grouping = tuple(grouping) if grouping else (1,) * N
+  assert sum(grouping) == N
 
   def t(ctx, it):
     m, env = constructor_env(it)
@@ -186,6 +189,9 @@ def mk_p3(N, D):
       ctx.assume(s_k <= sz)
     fams = [fam(f"S{k}", (sizes[k], sizes[k])) for k in range(N)]
     pfams = [fam(f"P{k}", (sizes[k], sizes[k])) for k in range(N)]
+    for k in range(N):
+      ctx.ghost.setdefault("dep_inputs", {})[fams[k][0].name()] = f"S{k}"
+      ctx.ghost["dep_inputs"][pfams[k][0].name()] = f"P{k}"
     ef = z3.Function("expo", z3.IntSort(), z3.IntSort())
     i_star = spec.fresh_int("i_star")
     j_star = spec.fresh_int("j_star")
@@ -216,18 +222,23 @@ def mk_p3(N, D):
     exponents = [SInt(ef(z3.IntVal(k))) for k in range(N)]
     PS = m.ParameterStats
     QV = it.load_module("precondition.quantization_utils").QuantizedValue
-    states = [PS(None, [statistics[k]], [prev[k]], None, None, None,
-                 m.init_training_metrics(1, True)) for k in range(N)]
+    states, slot_of, off = [], {}, 0
+    for gi, gsz in enumerate(grouping):
+      states.append(PS(None, [statistics[off + q] for q in range(gsz)], [prev[off + q] for q in range(gsz)], None, None, None,
+                       m.init_training_metrics(gsz, True)))
+      for q in range(gsz):
+        slot_of[off + q] = (gi, q)
+      off += gsz
     step = spec.fresh_int("step", lo=0)
     new_states = env["_pmap_compute_preconditioners"](
-        states, T.asarray(step), statistics, [1] * N, [(sizes[k], sizes[k]) for k in range(N)], exponents, sz, prev)
+        states, T.asarray(step), statistics, list(grouping), [(sizes[k], sizes[k]) for k in range(N)], exponents, sz, prev)
     tau = 0.1
-    ctx.oblige("_pmap_compute_preconditioners.post.one-state-per-input-state", len(new_states) == N)
+    ctx.oblige("_pmap_compute_preconditioners.post.one-state-per-input-state", len(new_states) == len(grouping))
     for k in range(N):
       i = spec.fresh_int(f"i{k}")
       j = spec.fresh_int(f"j{k}")
       ctx.assume(sym.sand(i >= 0, i < sizes[k], j >= 0, j < sizes[k]))
-      got = new_states[k].preconditioners[0]
+      got = new_states[slot_of[k][0]].preconditioners[slot_of[k][1]]
       ctx.oblige("_pmap_compute_preconditioners.post.slot-k-has-the-shape-of-statistic-k",
                  sym.sand(got.shape[0] == sizes[k], got.shape[1] == sizes[k]), detail=f"N={N} D={D} k={k}")
       # the root routine sees statistic k padded to max_size, ITS exponent and ITS padding start (= its true size)
@@ -236,8 +247,14 @@ def mk_p3(N, D):
       err = SReal(EF(name, exponents[k].z, sizes[k].z))
       keep = sym.sor(err >= tau)
       want = sym.ite(keep, prev[k].at((i, j)), want_root)
-      ctx.oblige(f"_pmap_compute_preconditioners.post.slot-k=gate(prev[k],Root(pad(stat[k]),expo[k],size[k]))-independent-of-D",
-                 got.at((i, j)) == want, detail=f"N={N} D={D} k={k}")
+      ctx.oblige(f"_pmap_compute_preconditioners.post.slot-k=gate(prev[k],Root(pad(stat[k]),expo[k],size[k]))-independent-of-D"
+                 "-and-of-every-other-statistic", got.at((i, j)) == want, detail=f"N={N} D={D} k={k} grouping={grouping}")
+      from pyvc import deps
+      rd = deps.collect(got.at((i, j)))
+      foreign = sorted({nm for nm, _ in rd.items if nm not in (f"S{k}", f"P{k}")})
+      ctx.oblige("_pmap_compute_preconditioners.frame: slot k is computed from statistic k and preconditioner k only - no arithmetic on "
+                 "another replica's / statistic's entries (a product with a zero coefficient still reads its operand: 0 * inf = NaN)",
+                 not foreign and len(rd.items) > 0, kind="frame", detail=f"N={N} D={D} k={k}: reads {sorted({nm for nm, _ in rd.items})}")
 
   return t
 
@@ -252,6 +269,8 @@ def tasks(tier):
          [(n, d) for d in (1, 2, 3, 4) for n in range(1, 7)]
   for n, d in grid:
     ts.append(Task(f"pmap_compute_preconditioners[N={n},D={d}]", mk_p3(n, d)))
+  for n, d, gr in ((3, 2, (3,)), (3, 2, (2, 1)), (4, 3, (1, 3))):
+    ts.append(Task(f"pmap_compute_preconditioners[N={n},D={d},statistics per parameter {gr}]", mk_p3(n, d, gr)))
   return ts
 
 
